@@ -7,6 +7,8 @@ import (
 	"testing"
 
 	"pgregory.net/rapid"
+
+	"github.com/tendermint/fundraising/x/fundraising/types"
 )
 
 // ---------------------------------------------------------------------------------------------
@@ -253,4 +255,94 @@ func runWithDumps(a *AppA, ops []Op, skip map[int]bool) []string {
 	a.Close()
 	dump()
 	return dumps
+}
+
+// ---------------------------------------------------------------------------------------------
+// C08 at the application boundary: the lifecycle must advance through FinalizeBlock, i.e. the
+// module's block hook must be wired into the application.
+// ---------------------------------------------------------------------------------------------
+
+// RunC08A delivers generated logs through FinalizeBlock; every block operation becomes an empty
+// block whose effect on every auction is judged by the predictive lifecycle of monC08.
+func RunC08A(t *testing.T) {
+	const prop = "C08"
+	col := GlobalCollector(prop)
+	col.AddRule("A: generated logs delivered through FinalizeBlock + Commit on a fresh application; every block operation is an empty block at its block time and its effect on every auction (waiting -> open, open -> extended | vesting | finished, vesting -> finished, nothing else) must equal the predictive lifecycle — this is what notices a block hook that is not wired into the application; blocks that carry transactions are only checked for legal status edges.")
+	w := CfgC08().Weights
+	w.PoorPct = 0
+	w.PerturbPct = 4
+	body := func(rt *rapid.T, ops []Op) {
+		labels := map[string]int{}
+		if rt != nil {
+			h, _ := genLogK(rt, w, 10, 40, 70)
+			ops = h.OpsLog()
+		}
+		a, err := NewAppA()
+		if err != nil {
+			panic(err)
+		}
+		a.EagerBlocks = true
+		hist := &History{Labels: labels, Statuses: map[uint64][]types.AuctionStatus{}}
+		mon := monC08{}
+		nt := false
+		prev := TakeSnap(a.B, a.Ctx())
+		nblocks := len(a.Blocks)
+		fail := func(v Violation) {
+			if f, ok := IsKnown(prop, v.Sig); ok {
+				col.Known(f)
+				return
+			}
+			WriteReplay(os.Getenv("VERIF_REPLAY_OUT"), Replay{Property: prop, Engine: "A", Signature: v.Sig, Message: v.Msg, Ops: ops})
+			col.AddViolation()
+			msg := fmt.Sprintf("VIOLATION %s [%s]\n(application level, through FinalizeBlock) %s\nhistory:\n%s", prop, v.Sig, v.Msg, opsStr(ops))
+			if rt != nil {
+				rt.Fatalf("%s", msg)
+			} else {
+				t.Errorf("%s", msg)
+			}
+		}
+		a.OnBlock = func(blk BlockA) {
+			cur := TakeSnap(a.B, a.Ctx())
+			st := &Step{Idx: len(a.Blocks), Op: Op{Kind: OpBlock, Time: blk.Time}, Res: Result{OK: true}, Now: blk.Time, Pre: prev, Post: cur}
+			if len(blk.Txs) == 0 {
+				for _, v := range mon.Step(hist, st) {
+					fail(v)
+				}
+				labels["c08:A-empty-block-judged"]++
+			} else {
+				labels["c08:A-block-with-transactions"]++
+			}
+			prev = cur
+		}
+		for _, o := range ops {
+			a.Feed(o)
+			if a.Failed != "" {
+				break // a failing block is C07's business
+			}
+			if o.Kind == OpAddAllowed || o.Kind == OpUpdateAllowed || o.Kind == OpSetBalance || (o.Kind == OpUpdateParams && o.Signer < 0) {
+				prev = TakeSnap(a.B, a.Ctx())
+			}
+		}
+		a.Close()
+		_ = nblocks
+		nt = hasLabel(hist, "c08:block==start", "c08:block==end", "c08:block==release", "c08:settled", "c08:extended")
+		if rt != nil {
+			var sample any
+			if nt {
+				sample = map[string]any{"engine": "A", "ops": opsLines(ops)}
+			}
+			col.Case(map[string]any{"engine": "A", "ops": ops}, nt, labels, sample)
+		}
+	}
+	if p := os.Getenv("VERIF_REPLAY_FILE"); p != "" {
+		r, err := ReadReplay(p)
+		if err != nil {
+			t.Fatal(err)
+		}
+		if r.Engine == "A" {
+			body(nil, r.Ops)
+		}
+		return
+	}
+	rapid.Check(t, func(rt *rapid.T) { body(rt, nil) })
 }
